@@ -108,8 +108,10 @@ def search_case(draw):
         cutoff = {"dict": [[a, b, c] for a, b, c in pairs]}
     rs = draw(st.one_of(st.none(), st.integers(1, 4), st.tuples(st.integers(0, 3), st.integers(1, 6)).map(lambda t: [min(t), max(t)])))
     default = draw(st.one_of(st.none(), st.lists(st.integers(-5, 9), min_size=len(pos), max_size=len(pos))))
+    # a second search right afterwards on the same sites with other species (bonds of a species-pair cutoff change)
+    syms2 = [draw(st.sampled_from(SYMS)) for _ in syms] if draw(st.booleans()) else None
     return {"cell": cell, "pbc": pbc, "pos": pos, "syms": syms, "cutoff": cutoff, "required_size": rs, "default": default,
-            "default_kind": draw(st.sampled_from(["list", "ndarray"]))}
+            "default_kind": draw(st.sampled_from(["list", "ndarray"])), "syms2": syms2}
 
 
 def reference_components(case):
@@ -206,6 +208,14 @@ def run_search(case):
             if (got[i] == got[j]) != (comp_of[i] == comp_of[j]):
                 out["violation"] = {"kind": "search-partition", "detail": f"{desc}: atoms {i},{j} labels {got[i]},{got[j]} but reference components {comp_of[i]},{comp_of[j]}"}
                 return out
+    if case.get("syms2"):
+        # same sites, same cutoff, other species: every call is judged on its own input
+        second = run_search(dict(case, syms=case["syms2"], syms2=None))
+        out["labels"] = labels + ["second-search-other-species"]
+        if second.get("violation"):
+            v = second["violation"]
+            out["violation"] = {"kind": v["kind"] + ":second-call", "detail": "second search on the same sites after the species were changed: " + v["detail"]}
+            out["nontrivial"] = True
     return out
 
 
